@@ -262,6 +262,24 @@ for _k, _v in ROUND10.items():
     CHECKS[_k]["text"] = CHECKS[_k]["text"] + _v
 
 
+ROUND11 = {
+    "C02": " Whole-number columns whose products and weighted sums leave 32 bits.",
+    "C03": " Missing markers with many digits through a written-out program; a single-precision marker.",
+    "C04": " A later command of the same family over fields without a valid cell.",
+    "C06": " Fields differing in unit axes; complete fuzzy inputs whose fill value occurs among the cells.",
+    "C07": " Column-major fields; infinite cells in table data; two tables of different length in one program.",
+    "C12": " Display names as command names; a missing input that some writer of the model produces; type names of the other reader.",
+    "C13": " Bad NetCDF type names with the consumers written first; reversed fault models; syntax errors after lone CRs.",
+    "C14": " List values given as tuples; a NetCDF field read as fuzzy in cyclic models.",
+    "C17": " Numbers with a leading decimal point; tabs and quotes in names written in command files run through the tool.",
+    "C18": " Non-ASCII names in command files; metadata named like NetCDF attributes; a dataset repaired after a failed run.",
+    "C19": " A user module named like a built-in library given with -l; commands of the main module.",
+    "C20": " Copies of fuzzy fields before and after the run; classes extending fuzzy commands; programs without commands.",
+}
+for _k, _v in ROUND11.items():
+    CHECKS[_k]["text"] = CHECKS[_k]["text"] + _v
+
+
 def main():
     props = [json.loads(l) for l in open(os.path.join(VERIF, "properties.jsonl"))]
     checks = []
